@@ -145,9 +145,9 @@ func (h *harness) buildTemplates() error {
 }
 
 type state struct {
-	configured    bool     // octosql.yml has database db of type testplugin
-	installed     []string // fully installed versions of testplugin before the action
-	handler       bool     // extension tpx registered before the action
+	configured bool     // octosql.yml has database db of type testplugin
+	installed  []string // fully installed versions of testplugin before the action
+	handler    bool     // extension tpx registered before the action
 }
 
 func stateInfo(s string) state {
@@ -290,12 +290,12 @@ func prefixes(size int, thorough bool, small bool) []int {
 				set[p] = true
 			}
 		} else {
-			for p := 0; p < 32 && p < size; p++ {
+			for p := 0; p < 16 && p < size; p++ {
 				set[p] = true
 				set[size-1-p] = true
 			}
-			for k := 1; k < 96; k++ {
-				set[int(int64(size)*int64(k)/96)] = true
+			for k := 1; k < 64; k++ {
+				set[int(int64(size)*int64(k)/64)] = true
 			}
 			for _, p := range []int{511, 512, 513, 4095, 4096, 4097, 65535, 65536, 1 << 20} {
 				if p < size {
@@ -354,7 +354,7 @@ func Run(c *core.Ctx) core.FinishOpts {
 	opts := core.FinishOpts{
 		Level: "fault_enumeration",
 		Rule: "faults = every (hook point, hit index) reached by a traced run of each scenario, crashed once, plus torn writes of every file written at a BeforeWrite/AfterWrite point at prefix lengths {0,1,half,len-1} " +
-			"(thorough: every prefix of the small registry files, 32 bytes at each end + 96 evenly spaced + block boundaries of the archive and the extracted binary); scenarios = start state (nothing / v1 installed+configured / v1+v2) x action " +
+			"(thorough: every prefix of the small registry files, 16 bytes at each end + 64 evenly spaced + block boundaries of the archive and the extracted binary); scenarios = start state (nothing / v1 installed+configured / v1+v2) x action " +
 			"(install new version, reinstall same version, install a second plugin claiming a registered extension, repository add); non-trivial = the fault was injected (exit 137) and the probes ran; distinct by scenario+fault",
 		Floor:      c.Pick(80, 600),
 		Exhaustive: true,
@@ -403,6 +403,9 @@ func Run(c *core.Ctx) core.FinishOpts {
 		{name: "S1-reinstall-same-version", start: "S1", args: []string{"plugin", "install", pluginName + "@1.0.0"}, target: pluginName, newVersion: "1.0.0"},
 		{name: "S2-reinstall-highest-version", start: "S2", args: []string{"plugin", "install", pluginName}, target: pluginName, newVersion: "2.0.0"},
 		{name: "S1-install-second-plugin-same-extension", start: "S1", args: []string{"plugin", "install", otherName}, target: otherName, newVersion: "1.0.0"},
+		// two installs in one command: every install hook point is hit twice (hit indexes 1 and 2),
+		// and the second registry write tears a file that already holds the first registration
+		{name: "S1-install-two-plugins", start: "S1", args: []string{"plugin", "install", pluginName + "@2.0.0", otherName}, target: pluginName, newVersion: "2.0.0"},
 		{name: "S0-repository-add", start: "S0", args: []string{"plugin", "repository", "add", h.srv.RepoURL("extra")}},
 		{name: "S1-repository-add", start: "S1", args: []string{"plugin", "repository", "add", h.srv.RepoURL("extra")}},
 	}
@@ -556,8 +559,8 @@ func lastLines(s string, n int) string {
 
 // straceCheck (thorough, optional): every path the command touches under HOME lies between two
 // hook points, i.e. no file-system step on the installation state is uninstrumented. It runs the
-// command under `strace -f -e trace=%file` with VERIF_TRACE pointing INTO the home directory, so
-// that the trace file's own appends show up in the strace log as markers between the steps.
+// command under `strace -f -e trace=%file,write` with VERIF_TRACE set, so that the hook trace file's own appends
+// (write calls whose payload is a hook point name) show up in the strace log as markers between the steps.
 func straceCheck(c *core.Ctx, h *harness, scenarios []scenario) {
 	if _, err := exec.LookPath("strace"); err != nil {
 		c.Note("strace_cross_check", "strace not available")
@@ -571,9 +574,21 @@ func straceCheck(c *core.Ctx, h *harness, scenarios []scenario) {
 		}
 		logPath := filepath.Join(c.Scratch, "strace-"+sc.name+".log")
 		tracePath := filepath.Join(home, "VERIF_TRACE_MARKER")
-		args := append([]string{"-f", "-e", "trace=%file", "-o", logPath, filepath.Join(c.BinDir, "octosql")}, sc.args...)
+		args := append([]string{"-f", "-e", "trace=%file,write", "-o", logPath, filepath.Join(c.BinDir, "octosql")}, sc.args...)
 		res := h.r.ExecBin("/usr/bin/strace", cli.Run{Args: args, Home: home, Env: append(h.env(home), "VERIF_TRACE="+tracePath), Timeout: 120 * time.Second})
 		data, err := os.ReadFile(logPath)
+		isMarker := func(l string) bool {
+			i := strings.Index(l, "write(")
+			if i < 0 {
+				return false
+			}
+			j := strings.Index(l[i:], ", \"")
+			if j < 0 {
+				return false
+			}
+			payload := l[i+j+3:]
+			return strings.HasPrefix(payload, "install.") || strings.HasPrefix(payload, "extensions.") || strings.HasPrefix(payload, "repo.")
+		}
 		if err != nil || res.Exit != 0 || !strings.Contains(string(data), "VERIF_TRACE_MARKER") {
 			c.Note("strace_cross_check", fmt.Sprintf("strace did not work here (exit %d): %s", res.Exit, lastLines(string(res.Stderr), 1)))
 			_ = os.RemoveAll(home)
@@ -584,7 +599,7 @@ func straceCheck(c *core.Ctx, h *harness, scenarios []scenario) {
 		lines := strings.Split(string(data), "\n")
 		first, last := -1, -1
 		for i, l := range lines {
-			if strings.Contains(l, "VERIF_TRACE_MARKER") {
+			if isMarker(l) {
 				if first < 0 {
 					first = i
 				}
@@ -592,7 +607,7 @@ func straceCheck(c *core.Ctx, h *harness, scenarios []scenario) {
 			}
 		}
 		for i, l := range lines {
-			if !strings.Contains(l, home) || strings.Contains(l, "VERIF_TRACE_MARKER") {
+			if !strings.Contains(l, home) || strings.Contains(l, "VERIF_TRACE_MARKER") || strings.Contains(l, "write(") {
 				continue
 			}
 			mutating := strings.Contains(l, "O_WRONLY") || strings.Contains(l, "O_RDWR") || strings.Contains(l, "O_CREAT") ||
@@ -609,6 +624,7 @@ func straceCheck(c *core.Ctx, h *harness, scenarios []scenario) {
 				unbracketed = append(unbracketed, sc.name+": "+strings.TrimSpace(l))
 			}
 		}
+		c.Count("strace/scenarios_traced", 1)
 		_ = os.RemoveAll(home)
 	}
 	c.Note("strace_cross_check", map[string]interface{}{"mutating_calls_under_home_checked": checked, "outside_hook_brackets": unbracketed})
